@@ -88,7 +88,7 @@ def run(tier):
     rep = common.Report(PID, tier)
     rep.rule = ("all histories of API activities of length <= L over the 17-activity alphabet (a state = the tuple of "
                 "process-global fields reached, a transition = one activity), each replayed in a child forked from a fresh "
-                "interpreter, followed by 6 probes x 2 versions compared byte-for-byte with the history-free baseline; "
+                "interpreter, followed by every probe of c11_server.PROBES (incl. tie populations of 6 and of 12 constants per constant block) x 2 versions compared byte-for-byte with the history-free baseline; "
                 "baselines compared across hash seeds {0,1,2,3,12345,random} and a shifted allocation pattern")
     L = 2 if tier == "quick" else 3
     acts = activities()
